@@ -335,6 +335,18 @@ class Flow:
             self._stores = table
         return self._stores
 
+    def _literal_rows(self, e, at_stmt, width: int):
+        """rows of a literal table of `width`-tuples that e denotes (the literal itself, or a local with exactly one reaching definition that is one)"""
+        if isinstance(e, ast.Name) and self.cfg.has(at_stmt):
+            defs = [d for d in self.cfg.defs_reaching(at_stmt, e.id)]
+            if len(defs) == 1 and defs[0] != 'param':
+                st = self.cfg.stmt[defs[0]]
+                if isinstance(st, ast.Assign) and len(st.targets) == 1 and isinstance(st.targets[0], ast.Name):
+                    e = st.value
+        if isinstance(e, (ast.Tuple, ast.List)) and e.elts and width and all(isinstance(r, (ast.Tuple, ast.List)) and len(r.elts) == width for r in e.elts):
+            return list(e.elts)
+        return None
+
     def _def_paths(self, s, name, ops, seen, depth):
         if isinstance(s, ast.Assign):
             out = []
@@ -357,6 +369,14 @@ class Flow:
         if isinstance(s, (ast.For, ast.AsyncFor)):
             idx = self._unpack_index(s.target, name) if not isinstance(s.target, ast.Name) else None
             extra = (f'unpack:{idx}', 'unpack') if idx is not None else ()
+            if idx is not None:
+                # `for a, b in ((x1, y1), (x2, y2))` (a literal table, directly or through a local bound once to one): a comes from the x's only
+                rows = self._literal_rows(s.iter, s, len(s.target.elts) if isinstance(s.target, (ast.Tuple, ast.List)) else 0)
+                if rows is not None:
+                    out = [(f'loopvar:{name}', ops)]
+                    for r_ in rows:
+                        out += self._lp(r_.elts[idx], s, ('op:iter',) + extra + ops, seen, depth + 1)
+                    return out
             return [(f'loopvar:{name}', ops)] + self._lp(s.iter, s, ('op:iter',) + extra + ops, seen, depth + 1)
         if isinstance(s, (ast.With, ast.AsyncWith)):
             out = []
